@@ -33,6 +33,11 @@ Reported per function (`problems`, each with the path = the lock events and bran
             the context the window was opened on (`ctx->field`), except fields that are immutable after
             coap_new_context() (IMMUTABLE_CTX_FIELDS), or that context passed to a function
 
+  reenter   (held_functions(), reported per function in `heldfns`) a function that holds the lock — it is entered held
+            (`*_lkd`, asserts / releases the lock at entry depth, or reached by direct calls from such code) or has taken
+            it itself — calls a function that takes the lock at its own entry level (a COAP_API wrapper,
+            coap_new_context): in library code in_callback is 0, so that coap_lock_lock() self-deadlocks
+
 `python3 lockbal.py --selftest` runs the analysis over small synthetic functions (SELFTEST below); props/C13.py runs it
 before every scan.
 """
@@ -250,6 +255,7 @@ class Interp:
         self.exits = {}                  # depth -> trace
         self.ctl = []                    # stack of ("loop", brk, cont) / ("switch", brk, entry states)
         self.calls = []                  # (callee, depth)
+        self.call_sites = {}             # (callee, ordinal of the call site among the calls of callee, depth) -> path
         self.n_unlock = self.n_lock = self.n_rel = self.n_keep = self.n_check = 0
         self.windows = set()             # ordinals of unlock sites at depth 0 / lock sites at depth 0
         self.used_release = self.used_acquire = False
@@ -394,8 +400,10 @@ class Interp:
                 pos = q + 1
             else:
                 passes = self.win_ctx is not None and any(norm(a) == self.win_ctx for a in args)
+                co = self.ordinal("call:" + name, (id(text), m.start()))
                 for (d, f), tr in states.items():
                     self.calls.append((name, d))
+                    self.call_sites.setdefault((name, co, d), tr)
                     if d < 0 and (name.endswith("_lkd") or name in self.needs_lock):
                         self.problem("touch", "%s() (needs the lock) called inside the release window" % name, tr)
                     elif d < 0 and passes:
@@ -635,7 +643,74 @@ def analyse(files):
                     "exitsBalanced": "exit" not in kinds, "loopsBalanced": "loop" not in kinds,
                     "failLeaves": "fail" not in kinds, "ordered": "order" not in kinds, "quiet": "touch" not in kinds,
                     "problems": probs})
-    return {"functions": out, "scanned": len(funcs), "needsLock": len(needs)}
+    held = held_functions(funcs, results, needs)
+    return {"functions": out, "scanned": len(funcs), "needsLock": len(needs), "heldfns": held}
+
+
+def held_functions(funcs, results, needs):
+    """Library code never calls the PUBLIC (lock-taking) API while it holds the lock: in library code in_callback is 0, so
+    coap_lock_lock_func() goes for the mutex its own thread already holds (self-deadlock; nested under a lock-keeping
+    callback the assert(in_callback == lock_count) fails instead) — theorem C13.lib_api_call_deadlocks_or_faults.
+
+    takers   = functions that take the lock at their own entry level (COAP_API wrappers, coap_new_context)
+    mayHeld  = functions that may be entered with the lock held: least set containing `needs` (the `*_lkd` functions and
+               those that assert / release the lock at entry depth) and closed under "called at depth > 0, or at depth 0
+               from a function of the set" (direct calls only; calls through function pointers are not followed, the
+               callback macros' `func` arguments are application code and are skipped)
+    One record per function that has code under the lock (mayHeld ∪ takers): the number of call sites it executes with
+    the lock held and how many of them call a taker."""
+    defined = {fn["name"] for fn in funcs}
+    res = {fn["name"]: [] for fn in funcs}
+    for fn in funcs:
+        res[fn["name"]].append(results[(fn["file"], fn["name"])])
+    takers = {fn["name"] for fn in funcs if results[(fn["file"], fn["name"])].used_acquire}
+    may = {n: None for n in defined if n in needs or n.endswith("_lkd")}      # name -> (caller, depth) witness
+    grew = True
+    while grew:
+        grew = False
+        for fn in funcs:
+            it = results[(fn["file"], fn["name"])]
+            for (callee, _, d) in it.call_sites:
+                if callee in defined and callee not in may and callee not in takers and \
+                        (d > 0 or (d == 0 and fn["name"] in may and not it.used_acquire)):
+                    may[callee] = (fn["name"], d)
+                    grew = True
+
+    def why(name):
+        chain, n = [], name
+        for _ in range(5):
+            w = may.get(n)
+            if not w:
+                break
+            chain.append("%s()%s" % (w[0], " after its coap_lock_lock" if w[1] > 0 else ""))
+            n = w[0]
+        if not chain:
+            return "it is entered with the lock held"
+        return "it is called from " + " <- ".join(chain) + (", entered with the lock held" if may.get(n, 0) is None else "")
+
+    out = []
+    for fn in funcs:
+        it = results[(fn["file"], fn["name"])]
+        name = fn["name"]
+        entered_held = name in may and not it.used_acquire
+        if not entered_held and not it.used_acquire:
+            continue
+        sites, bad = set(), {}
+        for (callee, o, d), tr in sorted(it.call_sites.items()):
+            if d > 0 or (d == 0 and entered_held):
+                sites.add((callee, o))
+                if callee in takers:
+                    bad.setdefault((callee, o), (d, tr))
+        probs = []
+        for (callee, o), (d, tr) in sorted(bad.items()):
+            probs.append("reenter: %s() calls the lock-taking public API function %s() (call #%d) while it holds the global lock "
+                         "(%s): coap_lock_lock() then waits for the mutex of its own thread%s" % (
+                             name, callee, o, ("taken by " + " -> ".join(tr)) if d > 0 and tr else
+                             "taken by its own coap_lock_lock" if d > 0 else why(name),
+                             ""))
+        out.append({"file": fn["file"], "name": name, "api": fn["api"], "entry": "held" if entered_held else "takes",
+                    "heldCalls": len(sites), "apiCalls": len(bad), "problems": probs})
+    return out
 
 
 SELFTEST = [
@@ -671,8 +746,35 @@ SELFTEST = [
 ]
 
 
+# (expected {function: number of public-API calls made under the lock}, source) — for held_functions()
+API = "COAP_API int pub(coap_context_t *c) { int r; coap_lock_lock(c, return 0); r = pub_lkd(c); coap_lock_unlock(c); return r; } "
+HELD_SELFTEST = [
+    ({"pub": 0, "pub_lkd": 0}, API + "int pub_lkd(coap_context_t *c) { return c->x; }"),
+    # a `_lkd` worker calls the public wrapper
+    ({"pub": 0, "pub_lkd": 0, "t_lkd": 1}, API + "int pub_lkd(coap_context_t *c) { return 1; } void t_lkd(coap_context_t *c) { if (c->x) pub(c); }"),
+    # … through a static helper that is only reached from held code
+    ({"pub": 0, "pub_lkd": 0, "u_lkd": 0, "helper": 1}, API + "int pub_lkd(coap_context_t *c) { return 1; } static void helper(coap_context_t *c)"
+     " { LL_FOREACH(c->l, q) { if (q->due) { q->mid = pub(c); } } } void u_lkd(coap_context_t *c) { helper(c); }"),
+    # a wrapper calls another wrapper after taking the lock
+    ({"pub": 0, "pub_lkd": 0, "pub2": 1}, API + "int pub_lkd(coap_context_t *c) { return 1; } COAP_API int pub2(coap_context_t *c)"
+     " { coap_lock_lock(c, return 0); pub(c); coap_lock_unlock(c); return 1; }"),
+    # … before taking it / after releasing it: fine;  inside a release window: fine;  inside a callback macro's argument: application code
+    ({"pub": 0, "pub_lkd": 0, "pub3": 0, "w_lkd": 0}, API + "int pub_lkd(coap_context_t *c) { return 1; } COAP_API int pub3(coap_context_t *c)"
+     " { pub(c); coap_lock_lock(c, return 0); pub_lkd(c); coap_lock_unlock(c); return pub(c); }"
+     " void w_lkd(coap_context_t *c) { coap_lock_unlock(c); pub(d); coap_lock_lock(c, return); coap_lock_callback(c, c->h(pub(c))); }"),
+    # a public convenience function that is not entered held may call the API; the same helper reached under the lock may not
+    ({"pub": 0, "pub_lkd": 0}, API + "int pub_lkd(coap_context_t *c) { return 1; } int conv(coap_context_t *c) { return pub(c); }"),
+    ({"pub": 0, "pub_lkd": 0, "conv": 1, "v_lkd": 0}, API + "int pub_lkd(coap_context_t *c) { return 1; } int conv(coap_context_t *c) { return pub(c); }"
+     " void v_lkd(coap_context_t *c) { conv(c); }"),
+]
+
+
 def selftest():
     bad = []
+    for want, src in HELD_SELFTEST:
+        got = {f["name"]: f["apiCalls"] for f in analyse([("selftest.c", src)])["heldfns"]}
+        if got != want:
+            bad.append("held: %s: expected %s got %s" % (src[len(API):len(API) + 60], want, got))
     for want, src in SELFTEST:
         r = analyse([("selftest.c", src)])["functions"]
         got = {p.split(":")[0] for f in r for p in f["problems"]}
@@ -684,7 +786,7 @@ def selftest():
 if __name__ == "__main__":
     if sys.argv[1:] == ["--selftest"]:
         b = selftest()
-        print("\n".join(b) if b else "selftest ok (%d cases)" % len(SELFTEST))
+        print("\n".join(b) if b else "selftest ok (%d cases)" % (len(SELFTEST) + len(HELD_SELFTEST)))
         sys.exit(1 if b else 0)
     import apiscan
     from concurrent.futures import ThreadPoolExecutor
